@@ -30,6 +30,7 @@ func runC14(c *core.Ctx) {
 
 func runC13(c *core.Ctx) {
 	h := newH(c)
+	h.initialisedFileOnly("C13.8 open-segment")
 	c.Clause("C13.1 front removal removes whole segments and never beyond the request; CanLTE agrees")
 	h.frontRemovalWholeSegments("C13.1 front-removal")
 	c.Clause("C13.2 views are read-only")
